@@ -334,7 +334,8 @@ def _build_file(path, repo, cfgs, b, depth):
                 info['drift'] = drift
                 b.dropped += notes
                 b.rewrites += rwnotes
-            except BuildError as e:
+            except (BuildError, rewrites.RewriteError) as e:
+                # a rewrite rule that meets a shape it does not know is a lost anchor (tool trouble), never a verdict
                 info['lost'] = str(e)
                 b.errors.append(str(e))
                 # keep the overlay's copy out: emit nothing (callers see the lost anchor)
